@@ -104,7 +104,9 @@ func (c *Ctx) Check(ok bool, rule, construct, pos, okDetail, badDetail string, p
 	return ok
 }
 
-func (c *Ctx) Note(format string, a ...interface{}) { c.Notes = append(c.Notes, fmt.Sprintf(format, a...)) }
+func (c *Ctx) Note(format string, a ...interface{}) {
+	c.Notes = append(c.Notes, fmt.Sprintf(format, a...))
+}
 
 // KnownFindings is /verif/known_findings.json (read-only at run time).
 type KnownFindings struct {
@@ -223,27 +225,27 @@ func (c *Ctx) WriteEvidence(dir, tier string, seed int, out *Outcome, extra map[
 	}
 	sort.Strings(funcs)
 	cov := map[string]interface{}{
-		"explanation":         explanation,
-		"obligations":         total,
-		"discharged":          discharged,
-		"evaluations":         total,
-		"distinct_nontrivial": nontriv,
-		"rule":                "one obligation per (rule, function, construct) instance found by role resolution over the type-checked SSA program; an obligation is non-trivial when deciding it needed a path, dominance, value-flow or call-graph query (all are; pure existence floors are reported separately under instances_per_rule)",
-		"samples":             samples,
-		"checker_cmd":         cmd,
-		"trusted_base":        trusted,
-		"instances_per_rule":  c.Instances,
-		"floors":              c.Floors,
-		"rules":               c.RuleText,
-		"functions_analysed":  funcs,
-		"functions_in_repo":   len(c.P.Funcs),
-		"functions_note":      "every rule scans all functions_in_repo source functions (closures and generic instantiations included) for instances of its roles; functions_analysed lists the role-bearing functions whose paths were then searched",
-		"packages_loaded":     len(c.P.Pkgs),
-		"files_loaded":        c.P.Files,
-		"call_sites":          c.CallSites,
+		"explanation":            explanation,
+		"obligations":            total,
+		"discharged":             discharged,
+		"evaluations":            total,
+		"distinct_nontrivial":    nontriv,
+		"rule":                   "one obligation per (rule, function, construct) instance found by role resolution over the type-checked SSA program; an obligation is non-trivial when deciding it needed a path, dominance, value-flow or call-graph query (all are; pure existence floors are reported separately under instances_per_rule)",
+		"samples":                samples,
+		"checker_cmd":            cmd,
+		"trusted_base":           trusted,
+		"instances_per_rule":     c.Instances,
+		"floors":                 c.Floors,
+		"rules":                  c.RuleText,
+		"functions_analysed":     funcs,
+		"functions_in_repo":      len(c.P.Funcs),
+		"functions_note":         "every rule scans all functions_in_repo source functions (closures and generic instantiations included) for instances of its roles; functions_analysed lists the role-bearing functions whose paths were then searched",
+		"packages_loaded":        len(c.P.Pkgs),
+		"files_loaded":           c.P.Files,
+		"call_sites":             c.CallSites,
 		"known_findings_matched": keysOf(out.Known),
-		"notes":               c.Notes,
-		"exhaustive":          true,
+		"notes":                  c.Notes,
+		"exhaustive":             true,
 	}
 	for k, v := range extra {
 		cov[k] = v
